@@ -1,5 +1,155 @@
 package main
 
+import (
+	"bytes"
+	"context"
+	"encoding/json"
+	"fmt"
+	"os"
+	"os/exec"
+	"path/filepath"
+	"regexp"
+	"strconv"
+	"strings"
+	"sync"
+	"time"
+)
+
+// The oracle harness (/verif/replay): independent RFC-derived reference implementations that search for a
+// concrete failing input on the REAL code (injected with `go test -overlay`, nothing is written to /repo).
+// It is used (1) to replay a failed obligation: a violation is "confirmed" when the oracle for the property
+// finds a failing input; (2) as a bounded stand-in where no contract is discharged (labelled bounded).
+
+type oracleResult struct {
+	ran      bool
+	failed   bool
+	inputs   []string
+	cases    int
+	output   string
+	cmd      string
+	duration float64
+	tags     string
+}
+
+var (
+	oracleMu    sync.Mutex
+	oracleCache = map[string]*oracleResult{}
+)
+
+func oraclePkg(property string) string {
+	if property == "C18" {
+		return "./internal/hmac"
+	}
+	return "."
+}
+
+func hasOracle(property string) bool {
+	pat := "func TestOracle" + property + "("
+	for _, dir := range []string{"replay", "replay/hmac"} {
+		files, _ := filepath.Glob(filepath.Join(verifDir, dir, "*.go"))
+		for _, f := range files {
+			if b, err := os.ReadFile(f); err == nil && bytes.Contains(b, []byte(pat)) {
+				return true
+			}
+		}
+	}
+	return false
+}
+
+// runOracle runs TestOracle<property> on /repo's working tree (once per property, tag set and budget).
+func runOracle(property, tags string, budgetMs int, seed int) *oracleResult {
+	key := fmt.Sprintf("%s|%s|%d", property, tags, budgetMs)
+	oracleMu.Lock()
+	defer oracleMu.Unlock()
+	if r, ok := oracleCache[key]; ok {
+		return r
+	}
+	r := &oracleResult{tags: tags}
+	oracleCache[key] = r
+	if !hasOracle(property) {
+		return r
+	}
+	ov := map[string]map[string]string{"Replace": {}}
+	add := func(glob, dst string) {
+		files, _ := filepath.Glob(filepath.Join(verifDir, glob))
+		for _, f := range files {
+			ov["Replace"][filepath.Join(repoDir, dst, "zz_"+filepath.Base(f))] = f
+		}
+	}
+	add("replay/*.go", "")
+	add("replay/hmac/*.go", "internal/hmac")
+	dir := filepath.Join(verifDir, "out", "replay")
+	os.MkdirAll(dir, 0o755)
+	ovFile := filepath.Join(dir, "overlay.json")
+	b, _ := json.Marshal(ov)
+	os.WriteFile(ovFile, b, 0o644)
+	args := []string{"test", "-v", "-overlay", ovFile, "-vet=off", "-count=1", "-timeout", "180s", "-run", "^TestOracle" + property + "$"}
+	var goTags []string
+	for _, t := range strings.Split(tags, ",") {
+		if t != "verif" && t != "" {
+			goTags = append(goTags, t)
+		}
+	}
+	if len(goTags) > 0 {
+		args = append(args, "-tags", strings.Join(goTags, ","))
+	}
+	args = append(args, oraclePkg(property))
+	ctx, cancel := context.WithTimeout(context.Background(), time.Duration(budgetMs+150000)*time.Millisecond)
+	defer cancel()
+	cmd := exec.CommandContext(ctx, "go", args...)
+	cmd.Dir = repoDir
+	cmd.Env = append(os.Environ(), "GOFLAGS=-mod=mod", "GOPROXY=off", "GOSUMDB=off", "GOTOOLCHAIN=local",
+		"GOCACHE="+filepath.Join(verifDir, "out", "gocache"),
+		"ORACLE_BUDGET_MS="+strconv.Itoa(budgetMs), "ORACLE_SEED="+strconv.Itoa(seed+1))
+	var out bytes.Buffer
+	cmd.Stdout = &out
+	cmd.Stderr = &out
+	t0 := time.Now()
+	err := cmd.Run()
+	r.duration = time.Since(t0).Seconds()
+	r.ran = true
+	r.output = out.String()
+	r.cmd = fmt.Sprintf("cd %s && ORACLE_BUDGET_MS=%d ORACLE_SEED=%d GOFLAGS=-mod=mod GOPROXY=off go %s", repoDir, budgetMs, seed+1, strings.Join(args, " "))
+	for _, l := range strings.Split(r.output, "\n") {
+		if strings.HasPrefix(l, "FAILING-INPUT: ") {
+			r.inputs = append(r.inputs, strings.TrimPrefix(l, "FAILING-INPUT: "))
+		}
+		if m := regexp.MustCompile(`^ORACLE-CASES: (\d+)`).FindStringSubmatch(l); m != nil {
+			n, _ := strconv.Atoi(m[1])
+			r.cases += n
+		}
+	}
+	if strings.Contains(r.output, "panic:") && len(r.inputs) == 0 && err != nil {
+		r.inputs = append(r.inputs, "the oracle run crashed: "+firstLines(r.output[strings.Index(r.output, "panic:"):], 3))
+	}
+	r.failed = err != nil && len(r.inputs) > 0
+	return r
+}
+
+var replaySeed int
+var replayBudgetMs = 6000
+
+// tryReplay: a failed obligation is confirmed when the property's oracle finds a failing input on the real code.
 func tryReplay(progs []*Program, property string, ob *Obligation) (string, bool) {
-	return "no model replay implemented for this obligation kind yet", false
+	tags := ob.Tags
+	r := runOracle(property, tags, replayBudgetMs, replaySeed)
+	var b strings.Builder
+	if !r.ran {
+		b.WriteString("no oracle is available for this property; the verifier gave no replayable counterexample\n")
+		return b.String(), false
+	}
+	fmt.Fprintf(&b, "replay: bounded search for a failing input on the real code (independent RFC oracle, %d cases, %.1fs)\n", r.cases, r.duration)
+	fmt.Fprintf(&b, "replay command: %s\n", r.cmd)
+	if r.failed {
+		b.WriteString("CONFIRMED on the real code; failing inputs:\n")
+		for _, in := range r.inputs {
+			b.WriteString("  " + in + "\n")
+		}
+		return b.String(), true
+	}
+	b.WriteString("the bounded search found no failing input within its budget (the obligation is still undischarged)\n")
+	if strings.Contains(r.output, "FAIL") || strings.Contains(r.output, "build failed") {
+		b.WriteString("oracle output:\n" + truncate(r.output, 3000) + "\n")
+	}
+	return b.String(), false
 }
